@@ -1572,6 +1572,31 @@ func oneCase(run *harness.Run, key string, idx int, r *rand.Rand, cc caseCfg) {
 				}
 			}
 			wt["key_request_trace"] = tr
+			// everything the cluster received in that window, whatever key it concerns (who sent
+			// what in between: checkpoint writes, other keys of the same batch, re-sent batches)
+			var all []string
+			for _, q := range reqs {
+				if q.GReq < lo-8 || q.GReq > hi+24 {
+					continue
+				}
+				a0 := ""
+				if len(q.Args) > 0 {
+					a0 = string(q.Args[0])
+					if len(a0) > 40 {
+						a0 = a0[:40] + "..."
+					}
+				}
+				rep := fmt.Sprint(q.Reply)
+				if len(rep) > 40 {
+					rep = rep[:40] + "..."
+				}
+				all = append(all, fmt.Sprintf("req %d node%d conn%d %s %s %s -> %s", q.GReq, q.Node, q.Conn, q.Cmd, a0, gen.FindID(q.Args), rep))
+				if len(all) >= 160 {
+					all = append(all, "...")
+					break
+				}
+			}
+			wt["all_requests_in_window"] = all
 		}
 		return wt
 	}
@@ -1642,6 +1667,33 @@ func oneCase(run *harness.Run, key string, idx int, r *rand.Rand, cc caseCfg) {
 					dealt = "reported-error"
 				}
 				sig := fmt.Sprintf("order|%s|%s|jumped-over=%s|successor=%s|run=%s", cls, modeSig(cc), jumped, via, dealt)
+				// an acknowledged disorder can still have been repaired inside the run: the sender
+				// re-sends a whole batch (up to three times) when one of its commands could not be
+				// redirected, and the re-sent batch applies the overtaken command and its
+				// successors again, in order.  healed = the LAST application of every command of
+				// the key from the overtaken one on is in source order (the overtaken one included)
+				if dealt == "acknowledged" {
+					lastApp := map[int]int64{}
+					for _, a := range got {
+						if a.p > prev && a.gseq > lastApp[a.p] {
+							lastApp[a.p] = a.gseq
+						}
+					}
+					healed := lastApp[prev+1] > 0
+					idx := make([]int, 0, len(lastApp))
+					for p := range lastApp {
+						idx = append(idx, p)
+					}
+					sort.Ints(idx)
+					for i := 1; i < len(idx) && healed; i++ {
+						if lastApp[idx[i-1]] > lastApp[idx[i]] {
+							healed = false
+						}
+					}
+					if healed {
+						sig += "|healed=in-run-retry"
+					}
+				}
 				if cc.Sched == connReset || cc.Sched == connLost {
 					sig += "|after=" + cc.Sched // behind a connection fault, not a redirect
 				}
